@@ -82,10 +82,10 @@ def rule_parts_domains(ctx, m):
             cls = kern._conv_class(leaf, {fld})
             sq_path = None
             for c, pol in path:
-                if fmt(c).replace('(', '').replace(')', '') == 'settings.inner_dist == 0':
-                    sq_path = pol
-                if fmt(c).replace('(', '').replace(')', '') == 'settings.inner_dist == 1':
-                    sq_path = not pol
+                # a test of the two-valued flag: evaluate it for inner_dist = 0 (squared kind) and 1 (euclidean kind)
+                if c[0] == 'bin' and c[1] in ('==', '!=') and c[2] == ('attr', ('var', 'settings'), 'inner_dist') and c[3][0] == 'num' and c[3][1] in (0, 1):
+                    true_for_0 = (c[3][1] == 0) == (c[1] == '==')
+                    sq_path = true_for_0 if pol else not true_for_0
             if sq_path is None:
                 bad.append('`%s` does not depend on inner_dist' % fmt(leaf)[:60])
             elif (cls == 'squared') != sq_path:
